@@ -226,6 +226,30 @@ def r5(ctx):
     klv = [dotted(s2.target) for s2 in statements(f.node) if isinstance(s2, ast.For) and isinstance(s2.iter, ast.Call) and dotted(s2.iter.func) == "range"]
     ok = len(gr) == 1 and bool(klv) and dotted(kwarg(gr[0], "n") or (gr[0].args[1] if len(gr[0].args) > 1 else None)) == klv[0]
     ctx.ob("R5", "AGREE", f, "grouper(chunk, n=keylen)", ok, "n-grams of the key length are counted")
+    # n-grams are cut per chunk, so the grouping restarts at every chunk boundary: for key lengths that do not divide the
+    # chunk size later chunks count a *rotated* key. The whole protected area (BEACON_CONFIG_PATCH_SIZE bytes) must
+    # therefore arrive as one chunk: read size >= area size (or an unbounded read).
+    menv = module_env(ctx.repo.module("guardrails"))
+
+    def size_of(e):
+        if e is None:
+            return -1
+        if dotted(e) in ("io.DEFAULT_BUFFER_SIZE", "DEFAULT_BUFFER_SIZE"):
+            return 8192
+        return _c(e, menv)
+
+    area = _c(ast.Name(id="BEACON_CONFIG_PATCH_SIZE", ctx=ast.Load()), menv)
+    fh = params(f.node)[0]
+    sizes = []
+    for c in fn_calls(f.node):
+        if dotted(c.func) == f"{fh}.read":
+            sizes.append((c, size_of(c.args[0] if c.args else None)))
+        elif dotted(c.func) in ("functools.partial", "partial") and c.args and dotted(c.args[0]) == f"{fh}.read":
+            sizes.append((c, size_of(c.args[1] if len(c.args) > 1 else None)))
+    ok = bool(sizes) and area is not None and all(s is not None and (s < 0 or s >= area) for _c2, s in sizes)
+    ctx.ob("R5", "ABS", f, "one chunk covers the protected area", ok,
+           f"read sizes {[s for _c2, s in sizes]} vs area {area} bytes (io.DEFAULT_BUFFER_SIZE taken as 8192)" + ("" if ok else ": n-gram phase is lost at a chunk boundary inside the area"),
+           sizes[0][0] if sizes else f.node)
     mc = [c for c in fn_calls(f.node) if isinstance(c.func, ast.Attribute) and c.func.attr == "most_common"]
     ctx.ob("R5", "AGREE", f, "most_common(2)", len(mc) == 1 and _c(mc[0].args[0]) == 2, "the two most common n-grams are candidates")
     p = ctx.repo.func("guardrails.payload_checksum")
